@@ -127,10 +127,18 @@ def check_valid_graph(k, bits, as_bool, verbose=False, dtype=None):
     import numpy
     dsw = import_dsw()
     n = 4 ** k
-    mask = gens.pooled(numpy.array(bits, dtype=dtype or (bool if as_bool else int)), "mask")
+    if dtype in ("list", "tuple"):
+        mask = numpy.array(bits, dtype=int)  # snapshot carrier; the call itself gets a plain Python sequence
+    else:
+        mask = gens.pooled(numpy.array(bits, dtype=dtype or (bool if as_bool else int)), "mask")
     before = mask.tobytes()
-    got = lib_call(dsw.connect_valid_graph, observed_length=k, vertices=mask, verbose=verbose)
-    if mask.tobytes() != before:
+    argument = mask
+    if dtype == "list":
+        argument = [int(b) for b in bits]
+    elif dtype == "tuple":
+        argument = tuple(bool(b) for b in bits)
+    got = lib_call(dsw.connect_valid_graph, observed_length=k, vertices=argument, verbose=verbose)
+    if mask.tobytes() != before or (dtype == "list" and argument != [int(b) for b in bits]):
         return "connect_valid_graph modified the mask", False
     marked = {i for i, b in enumerate(bits) if b}
     if not marked:
@@ -193,7 +201,8 @@ def valid_cases(draw, tier):
         bits = [0] * (4 ** k)
     return {"k": k, "bits": "".join(map(str, bits)), "bool": draw(st.booleans()) and kind != "values>1",
             "none": kind == "none", "verbose": k <= 5 and draw(st.integers(0, 3)) == 0,
-            "dtype": draw(st.sampled_from([None, None, None, "uint8", "int8", "int32"])),
+            "dtype": draw(st.sampled_from([None, None, None, "uint8", "int8", "int32", "list", "tuple"]))
+            if kind != "values>1" else None,
             "full": draw(st.sampled_from([False] * 9 + [True]))}
 
 
@@ -217,6 +226,8 @@ def evaluate_valid_drawn(case):
         labels.append("verbose")
     if case.get("dtype"):
         labels.append("mask_dtype:" + case["dtype"])
+        if case["dtype"] in ("list", "tuple"):
+            labels.append("mask_is_python_sequence")
     if case.get("full"):
         labels.append("complete_mask")
     if detail:
